@@ -1287,8 +1287,34 @@ func (f *Frugal) validateServices(includes map[string]*Frugal) error {
 		if err := service.validate(); err != nil {
 			return err
 		}
+		if err := f.validateServiceExtends(service, includes); err != nil {
+			return err
+		}
 	}
 	return nil
+}
+
+// validateServiceExtends ensures the extended service exists, either in this
+// file or in the named include.
+func (f *Frugal) validateServiceExtends(service *Service, includes map[string]*Frugal) error {
+	if service.Extends == "" {
+		return nil
+	}
+	services := f.Services
+	if include := service.ExtendsInclude(); include != "" {
+		parsed, ok := includes[include]
+		if !ok {
+			return fmt.Errorf("Service %s extends %s, include %s not found",
+				service.Name, service.Extends, include)
+		}
+		services = parsed.Services
+	}
+	for _, candidate := range services {
+		if candidate.Name == service.ExtendsService() {
+			return nil
+		}
+	}
+	return fmt.Errorf("Service %s extends %s, which doesn't exist", service.Name, service.Extends)
 }
 
 func (f *Frugal) validateServiceTypes(service *Service, includes map[string]*Frugal) error {
